@@ -168,6 +168,11 @@ func configFor(mode, tier string, r *core.Rng) genCfg {
 		c.roRate = 0.6
 		c.restartRate = 0.15 // queries right after a restart, before the new process has committed anything
 	}
+	// a node may be restarted between any two blocks, whatever the run is about: what the process kept in memory
+	// only (caches, queues, notes) is gone then
+	if c.restartRate == 0 && mode != "crash" && r.Chance(0.5) {
+		c.restartRate = 0.06
+	}
 	// swarm: switch some things off entirely in a run
 	if r.Chance(0.3) {
 		c.evRate = 0
